@@ -207,6 +207,12 @@ def F3_indices(canonical=True):
     return out
 
 
+def U3c_shard(seed, stride):
+    """the canonical (up to variable renaming) members of {all 2^24 three-variable networks} with index = seed mod stride:
+    a complete residue class of the full universe, all 256 functions per variable allowed"""
+    return [idx for idx in range(seed % stride, 1 << 24, stride) if canon3(tabs3(idx))]
+
+
 def U1():
     return [net_from_index(1, i) for i in range(4)]
 
